@@ -6,6 +6,15 @@ props = [json.loads(l) for l in open(os.path.join(V, "properties.jsonl"))]
 
 # property -> (level text, level note, technique, design_ref)
 CLAIMED = {
+ "C01": ("Runtime.tla is the Level-1 call-stack machine (TraitCall, FnEnter guarded by own-function / same-receiver / args-in-order / exactly-once, "
+         "FnExit, TraitRet guarded by result-unchanged, lazy futures). TLC (MC_C01) drives it with Level 2's delegating body for every abstract "
+         "fn/mod program (5 deps kinds x parameter lists of 6 kinds x sync/async x 5 option sets x 1..3 same-signature fns) and checks that no "
+         "guard is violated. The programs are rendered with logging bodies, built with the real macro under both feature settings and run "
+         "(direct-call, trait-call, dropped-future scenarios, seeded injective values); TLC (Trace_Runtime) accepts the recorded event log iff "
+         "it is a behaviour of the Level-1 machine and trait-call results equal direct-call results.",
+         "bounded (<= 2 params quick with a stratified sample of the programs, <= 3 and all programs thorough); logging bodies; identity = address or carried id",
+         "TLA+ call-stack machine model-checked by TLC with the modelled delegating bodies + TLC trace validation of event logs recorded from real generated binaries",
+         "7/C01"),
  "C20": ("Session.tla models the compiler session (memo of key -> output, processes with sequence numbers); TLC checks that the pure session "
          "satisfies Functional and that an impure one (a counter leaking into outputs) violates it (non-vacuity). The real macro is then run in "
          "K separate rustc processes over a corpus (every invocation twice per process, module order permuted, job counts, locale/TZ/env varied, "
